@@ -541,7 +541,7 @@ def run_process(repo, spec, root):
     if hasattr(tempfile, '_name_sequence'):
         tempfile._name_sequence = _TempNames()
     signal.signal(signal.SIGALRM, _alarm)
-    signal.alarm(int(spec.get('alarm', 60)))
+    signal.alarm(int(spec.get('alarm', 30)))
     proc = Proc(repo, world, spec)
     obs = {'hang': False}
     lines = set()
